@@ -4627,6 +4627,8 @@ class ResponseFuture(object):
 
             if cb is None:
                 cb = partial(self._set_result, host, connection, pool)
+            else:
+                cb = partial(cb, host, connection, pool)
 
             self.request_encoded_size = connection.send_msg(message, request_id, cb=cb,
                                                             encoder=self._protocol_handler.encode_message,
@@ -4726,7 +4728,9 @@ class ResponseFuture(object):
         self.send_request()
 
     def _reprepare(self, prepare_message, host, connection, pool):
-        cb = partial(self.session.submit, self._execute_after_prepare, host, connection, pool)
+        # _query borrows a connection for the PREPARE: that one (not the connection the UNPREPARED answer came
+        # on, which has been returned already) is what _execute_after_prepare has to give back
+        cb = partial(self.session.submit, self._execute_after_prepare)
         request_id = self._query(host, prepare_message, cb=cb)
         if request_id is None:
             # try to submit the original prepared statement on some other host
